@@ -1544,6 +1544,59 @@ def c01_h(ctx):
         raise Anchor("C01-H", "assignment of Some(..) to RecvTransaction.file_handle")
 
 
+# ================================================================ C04-H2
+@rule("C04", "C04-H2", 1, "the accessor of the staging file never gives up for want of a file it could have created: no path through get_handle reaches an exit knowing that no staging file is held (a straggler segment after delivery must find a handle - an error there ends the open transaction's task, and the daemon then re-opens the transaction and delivers a second time)", also=("C01",))
+def c04_h2(ctx):
+    fns = impl_fns(ctx, RECV)
+
+    def track(key):
+        return key[0] == "val" and key[1] == "self.file_handle"
+
+    n = 0
+    for f in fns:
+        if f.name != "get_handle":
+            continue
+        n += 1
+        key = "get_handle:exit-without-handle"
+        fl = Flow(ctx.prog, ctx.mods, f, track)
+        # functions of the impl that (transitively) store a handle
+        writers = {g.norm for g, b_, j_, s_, ps_ in field_writes(fns, "self.file_handle") if ps_ == "self.file_handle" and g.name != "new"}
+        grew = True
+        while grew:
+            grew = False
+            for g in fns:
+                if g.norm in writers:
+                    continue
+                if any(h.norm in writers for b_, t_ in g.all_calls() for h in ctx.prog.call_targets(t_)):
+                    writers.add(g.norm)
+                    grew = True
+
+        def creates(b):
+            blk = f.blocks[b]
+            if any(s_["k"] == "assign" and f.place_str(s_["place"]) == "self.file_handle" for s_ in blk["stmts"]):
+                return True
+            t_ = blk["term"]
+            return t_["k"] == "call" and any(h.norm in writers for h in ctx.prog.call_targets(t_))
+
+        offending = None
+        for b in f.live_blocks():
+            ws = [w for w in fl.at_term(b) if val_in(dict(w), "self.file_handle", {"None"})]
+            if not ws:
+                continue
+            reach = f.reachable(b)
+            if any(creates(x) for x in reach):
+                continue
+            if any(f.blocks[x]["term"]["k"] == "return" for x in reach):
+                offending = (b, ws[0])
+                break
+        if offending is None:
+            yield ok("C04-H2", key, at(f), "every path that saw file_handle.is_none() goes through the creation of the staging file before the handle is handed out")
+        else:
+            yield bad("C04-H2", key, at(f), "a path through get_handle reaches its exit with no staging file held and none created (state %s): file data reaching that state returns NoFile, which ends the open receive task" % world_str(offending[1]))
+    if n == 0:
+        raise Anchor("C04-H2", "RecvTransaction::get_handle")
+
+
 # ================================================================ C01-P
 @rule("C01", "C01-P", 1, "the receiver reports the file as retained only after it copied the staged file to the destination (no shortcut around the copy)")
 def c01_p(ctx):
